@@ -180,15 +180,21 @@ def _reduction_names(py):
 
 
 def emulated_parallel(dispatcher, args, kwargs=None, nthreads=4, seed=0, yield_prob=0.5, timeout=120.0):
-    """Execute the pure-Python body of a kernel under an *emulated* parallel runtime: `nthreads` Python threads
-    each run the function, `prange` hands thread t the iterations i = t (mod nthreads), arrays allocated before
-    the loop are shared between the threads (as the single allocation of the real kernel is), all threads meet
-    at a barrier when the loop ends, and every access to a shared array is a possible context switch
-    (time.sleep(0) with probability `yield_prob`, tiny switch interval).  Iterations of a prange loop may run in
-    any interleaving, so a correct kernel returns the sequential result under every such schedule.
-    -> ("ok", result) | ("skipped", reason) | ("failed", reason)"""
+    """Execute the pure-Python source of a kernel under an *emulated* parallel runtime.
+
+    The function's AST is rewritten: every `for i in prange(...)` loop becomes a nested function body(i) plus a
+    call that distributes the iterations i = t (mod nthreads) over `nthreads` Python threads and joins them.
+    Code before and after the loop runs once, in the calling thread (as in the compiled kernel); names assigned
+    inside the loop body are locals of body(i), i.e. private to an iteration; arrays allocated outside the loop
+    are shared, and every element access to them from inside the parallel section is a possible context switch
+    (time.sleep(0) with probability `yield_prob`, switch interval 10 us).  Iterations of a prange loop may run
+    in any interleaving, so a correct kernel returns the sequential result under every such schedule.
+    -> ("ok", result arrays) | ("skipped", reason) | ("failed", reason)"""
+    import ast
+    import inspect
     import random
     import sys
+    import textwrap
     import threading
     import time
     py = dispatcher.py_func
@@ -199,34 +205,51 @@ def emulated_parallel(dispatcher, args, kwargs=None, nthreads=4, seed=0, yield_p
         return "skipped", f"prange reduction on {sorted(red)} (not emulated)"
     if "prange" not in py.__code__.co_names:
         return "skipped", "the kernel has no prange loop (sequential code: nothing to interleave)"
-    shared = []
-    lock = threading.Lock()
-    barrier = threading.Barrier(nthreads)
+    try:
+        tree = ast.parse(textwrap.dedent(inspect.getsource(py)))
+    except (OSError, SyntaxError, TypeError) as e:
+        return "skipped", f"source not available: {e}"
+    fdef = next(n for n in tree.body if isinstance(n, ast.FunctionDef))
+    fdef.decorator_list = []
+    counter = [0]
+
+    class Rewrite(ast.NodeTransformer):
+        def visit_For(self, node):
+            self.generic_visit(node)
+            if isinstance(node.iter, ast.Call) and getattr(node.iter.func, "id", "") == "prange" \
+                    and isinstance(node.target, ast.Name) and not node.orelse:
+                counter[0] += 1
+                name = f"__vmon_body_{counter[0]}"
+                body = ast.FunctionDef(name=name, args=ast.arguments(posonlyargs=[], args=[ast.arg(arg=node.target.id)],
+                                                                       kwonlyargs=[], kw_defaults=[], defaults=[]),
+                                       body=node.body, decorator_list=[], type_params=[])
+                call = ast.Expr(ast.Call(func=ast.Name(id="__vmon_run_parallel", ctx=ast.Load()),
+                                         args=[ast.Name(id=name, ctx=ast.Load()),
+                                               ast.Call(func=ast.Name(id="range", ctx=ast.Load()), args=node.iter.args, keywords=[])],
+                                         keywords=[]))
+                return [body, call]
+            return node
+    tree = ast.fix_missing_locations(Rewrite().visit(tree))
+    if counter[0] == 0:
+        return "skipped", "no prange loop of the simple form `for i in prange(...)`"
     tls = threading.local()
     rnd = random.Random(seed)
-    results = [None] * nthreads
     errors = []
 
     class SharedArr(np.ndarray):
         def __getitem__(self, key):
-            if getattr(tls, "in_loop", False) and rnd.random() < yield_prob:
+            if getattr(tls, "in_body", False) and rnd.random() < yield_prob:
                 time.sleep(0)
             return np.asarray(self).__getitem__(key)
 
         def __setitem__(self, key, value):
-            if getattr(tls, "in_loop", False) and rnd.random() < yield_prob:
+            if getattr(tls, "in_body", False) and rnd.random() < yield_prob:
                 time.sleep(0)
             np.asarray(self).__setitem__(key, value)
 
     def alloc(maker):
-        if getattr(tls, "in_loop", False):
-            return maker()                       # temporaries of one iteration are private
-        k = tls.nalloc
-        tls.nalloc += 1
-        with lock:
-            if k >= len(shared):
-                shared.append(maker().view(SharedArr))
-            return shared[k]
+        arr = maker()
+        return arr if getattr(tls, "in_body", False) else arr.view(SharedArr)
 
     class NPShim:
         def __getattr__(self, name):
@@ -244,48 +267,49 @@ def emulated_parallel(dispatcher, args, kwargs=None, nthreads=4, seed=0, yield_p
         def empty(*a, **k):
             return alloc(lambda: np.zeros(*a, **k))
 
-    used = []
+        @staticmethod
+        def ones(*a, **k):
+            return alloc(lambda: np.ones(*a, **k))
 
-    def prange_gen(*a):
-        used.append(1)
-        barrier.wait(timeout)
-        tls.in_loop = True
-        for i in range(*a):
-            if (i - (a[0] if len(a) > 1 else 0)) % nthreads == tls.tid:
-                yield i
-        tls.in_loop = False
-        barrier.wait(timeout)
+    def run_parallel(body, iterations):
+        iterations = list(iterations)
 
-    g = dict(py.__globals__)
-    g.update(prange=prange_gen, np=NPShim(), get_thread_id=lambda: tls.tid, get_num_threads=lambda: nthreads)
-    fn = types.FunctionType(py.__code__, g, py.__name__, py.__defaults__, py.__closure__)
-
-    def run(t):
-        tls.tid, tls.nalloc, tls.in_loop = t, 0, False
-        try:
-            with np.errstate(all="ignore"):
-                results[t] = fn(*args, **(kwargs or {}))
-        except Exception as e:  # noqa: BLE001
-            errors.append(f"{type(e).__name__}: {e}")
+        def worker(t):
+            tls.in_body = True
+            tls.tid = t
             try:
-                barrier.abort()
-            except Exception:  # noqa: BLE001
-                pass
-    old = sys.getswitchinterval()
-    sys.setswitchinterval(1e-5)
-    try:
-        ths = [threading.Thread(target=run, args=(t,), daemon=True) for t in range(nthreads)]
+                with np.errstate(all="ignore"):
+                    for i in iterations[t::nthreads]:
+                        body(i)
+            except Exception as e:  # noqa: BLE001
+                errors.append(f"{type(e).__name__}: {e}")
+        ths = [threading.Thread(target=worker, args=(t,), daemon=True) for t in range(nthreads)]
         for t in ths:
             t.start()
         for t in ths:
             t.join(timeout)
+        if any(t.is_alive() for t in ths):
+            errors.append("emulation timed out")
+        if errors:
+            raise RuntimeError(errors[0])
+
+    g = dict(py.__globals__)
+    g.update(np=NPShim(), __vmon_run_parallel=run_parallel, get_thread_id=lambda: getattr(tls, "tid", 0),
+             get_num_threads=lambda: nthreads)
+    try:
+        exec(compile(tree, f"<emulated {py.__name__}>", "exec"), g)
+        fn = g[fdef.name]
+    except Exception as e:  # noqa: BLE001
+        return "skipped", f"could not rebuild the kernel for emulation: {type(e).__name__}: {e}"
+    old = sys.getswitchinterval()
+    sys.setswitchinterval(1e-5)
+    try:
+        with np.errstate(all="ignore"):
+            r = fn(*args, **(kwargs or {}))
+    except Exception as e:  # noqa: BLE001
+        return "failed", f"{type(e).__name__}: {e}"
     finally:
         sys.setswitchinterval(old)
-    if not used:
-        return "skipped", "the kernel has no prange loop (sequential code: nothing to interleave)"
-    if errors or any(t.is_alive() for t in ths):
-        return "failed", (errors[0] if errors else "emulation timed out")
-    r = results[0]
     return "ok", tuple(np.asarray(x) for x in r) if isinstance(r, tuple) else (np.asarray(r),)
 
 
